@@ -14,6 +14,8 @@ for d in sorted(glob.glob(os.path.join(V, "seeded", "C*"))):
         items.append((os.path.basename(d), os.path.join(d, "patch.diff"), "seeded"))
 for f in sorted(glob.glob(os.path.join(V, "selftest", "*.diff"))):
     items.append((os.path.basename(f)[:-5], f, "synthetic"))
+for f in sorted(glob.glob(os.path.join(V, "selftest", "*.diff.benign"))):
+    items.append((os.path.basename(f)[:-12], f, "benign"))
 if len(sys.argv) > 1:
     items = [it for it in items if it[0] in sys.argv[1:]]
 sh("git -C /repo worktree remove --force %s" % WT); shutil.rmtree(WT, ignore_errors=True)
@@ -61,6 +63,8 @@ with open(os.path.join(V, "seeded", "MATRIX.md"), "w") as f:
     for name, r in sorted(res.items()):
         if "error" in r:
             f.write("| %s | %s | | %s |\n" % (name, r["kind"], r["error"])); continue
+        if r["kind"] == "benign":
+            f.write("| %s | benign | (must stay silent) | %s |\n" % (name, "silent" if not r["caught_by"] else "**FALSE ALARM** " + json.dumps(r["caught_by"])[:200])); continue
         cb = "; ".join("%s: %s" % (c, ", ".join(x.split("|")[0] + "|" + x.split("|")[-1][:60] for x in v[:2])) for c, v in sorted(r["caught_by"].items())) or "**not caught**"
         f.write("| %s | %s | %s | %s |\n" % (name, r["kind"], name.split("-")[0], cb))
 print("written seeded/MATRIX.md")
